@@ -118,6 +118,50 @@ static std::vector<RaceReport> read_tsan_reports()
             r.signature = "tsan:" + kind;
             for (size_t i = 0; i < tops.size() && i < 2; ++i)
                 r.signature += "|" + tops[i];
+            // One specific defect gets its own signature: StatusChecker::begin_run_impl
+            // rebuilds the SHARED params (`data_`) for every stream without synchronisation.
+            // Only reports in which EVERY access stack lies inside StatusChecker code and at
+            // least one is the rebuild itself qualify; anything else keeps the generic
+            // signature above.
+            {
+                std::istringstream is2(b);
+                bool in_access = false, any_access = false, all_in_checker = true,
+                     rebuild = false, cur_checker = false;
+                auto close = [&] {
+                    if (in_access)
+                    {
+                        any_access = true;
+                        all_in_checker = all_in_checker && cur_checker;
+                    }
+                    in_access = false;
+                    cur_checker = false;
+                };
+                while (std::getline(is2, line))
+                {
+                    bool hdr = line.size() > 2 && line[2] != ' ' && line[0] == ' ';
+                    if (hdr)
+                    {
+                        close();
+                        // "Write of size", "Previous read of size", "Read of size",
+                        // "Previous atomic write" ... are the two accesses; "Location is",
+                        // "Thread T1 ... created by", "Mutex ..." are not
+                        std::string t = line.substr(2);
+                        in_access = t.find(" of size ") != std::string::npos
+                                    && t.find(" by ") != std::string::npos;
+                        continue;
+                    }
+                    if (in_access && line.find("    #") == 0)
+                    {
+                        if (line.find("StatusChecker::") != std::string::npos)
+                            cur_checker = true;
+                        if (line.find("StatusChecker::begin_run_impl") != std::string::npos)
+                            rebuild = true;
+                    }
+                }
+                close();
+                if (any_access && all_in_checker && rebuild)
+                    r.signature = "tsan:StatusChecker::begin_run_impl-rebuilds-shared-data-per-stream";
+            }
             out.push_back(r);
         }
     }
